@@ -32,7 +32,7 @@ ID = 'C04'
 RULE = ('8-event alphabet (3 levels a-d,a,a+d of origin_time [d=1 ms around 2010-01-01T00:00:00], latitude, longitude, '
         'depth, magnitude; one exact duplicate); catalogs = every sequence of length 0..3 (thorough 0..4); statements = '
         '5 attributes x 5 operators x 3 thresholds + datetime x 5 operators x 4 instants (…59.999, whole second, .001, '
-        '.250) = 95; every single statement on every catalog; every ordered pair (thorough: + every ordered triple over '
+        '.250) + 10 half-millisecond (non-integer) thresholds on the integer origin_time column = 105; every single statement on every catalog; every ordered pair (thorough: + every ordered triple over '
         'a 20-statement sub-alphabet) on the full catalog, its reversal, [], [e0], [e3] (thorough: every catalog of length '
         '0..2; triples: length 0..1), each list '
         'applied as str/list/reversed tuple/one-by-one/twice + filter() from stored filters/filters= at construction, '
@@ -98,10 +98,14 @@ def statements_all():
     for op in OPS:
         for ms in DT_INSTANTS:
             out.append(f'datetime {op} {fmt_dt(ms)}')
+    # thresholds that are not whole numbers on the integer-typed origin_time column (half a millisecond either side of T0)
+    for op in OPS:
+        for v in (T0 - 0.5, T0 + 0.5):
+            out.append(f'origin_time {op} {v!r}')
     return out
 
 
-STATEMENTS = statements_all()           # 75 + 20
+STATEMENTS = statements_all()           # 75 + 20 + 10
 
 
 def statements_sub20():
@@ -115,7 +119,7 @@ def statements_sub20():
 
 
 SUB20 = statements_sub20()
-assert len(STATEMENTS) == 95 and len(SUB20) == 20 and all(s in STATEMENTS for s in SUB20)
+assert len(STATEMENTS) == 105 and len(SUB20) == 20 and all(s in STATEMENTS for s in SUB20)
 
 
 # ----------------------------------------------------------------------------- reference model (no csep here)
@@ -402,8 +406,8 @@ def filter_step(ctx, case, src, cat, raw, base_keep, stmts_now, form, in_place, 
     return res, ok
 
 
-VARIANTS_SINGLE = ('str', 'str-twice', 'ctor-str')
-VARIANTS_LIST = ('list', 'tuple-reversed', 'one-by-one', 'twice', 'ctor')
+VARIANTS_SINGLE = ('str', 'str-twice', 'ctor-str', 'str-preview-then-apply', 'ctor-str-then-explicit')
+VARIANTS_LIST = ('list', 'tuple-reversed', 'one-by-one', 'twice', 'ctor', 'preview-then-apply', 'ctor-then-explicit')
 
 
 def run_scenario(ctx, events, stmts, variant, in_place):
@@ -417,7 +421,7 @@ def run_scenario(ctx, events, stmts, variant, in_place):
                  f'{src.events}', case)
         return keep
     every = list(range(len(src.events)))
-    start = (lambda **kw: src.fresh(**kw)) if in_place else (lambda **kw: src.shared())
+    start = (lambda **kw: src.fresh(**kw))       # never shared between calls: filter() records the statements on the source catalog
     w = f'{variant} in_place={in_place}'
     if variant in ('str', 'list'):
         filter_step(ctx, case, src, start(), src.raw, every, stmts, variant, in_place, stmts, w)
@@ -437,6 +441,18 @@ def run_scenario(ctx, events, stmts, variant, in_place):
         form = 'str' if variant == 'ctor-str' else 'list'
         cat = src.fresh(filters=stmts[0] if form == 'str' else list(stmts))
         filter_step(ctx, case, src, cat, src.raw, every, stmts, 'noarg-' + form, in_place, stmts, w)
+    elif variant in ('str-preview-then-apply', 'preview-then-apply'):
+        # history on ONE catalog object: look at the result without touching the catalog, then apply the same statements in place
+        form = 'str' if variant.startswith('str') else 'list'
+        cat = start()
+        r, ok = filter_step(ctx, case, src, cat, src.raw, every, stmts, form, False, stmts, w + ' preview (in_place=False)')
+        if ok:
+            filter_step(ctx, case, src, cat, src.raw, every, stmts, form, True, stmts, w + ' then the same statements in place')
+    elif variant in ('ctor-str-then-explicit', 'ctor-then-explicit'):
+        # statements given at construction (recorded, not applied), then passed explicitly
+        form = 'str' if variant.startswith('ctor-str') else 'list'
+        cat = src.fresh(filters=stmts[0] if form == 'str' else list(stmts))
+        filter_step(ctx, case, src, cat, src.raw, every, stmts, form, in_place, stmts, w)
     elif variant == 'one-by-one':
         cat, raw, base = start(), src.raw, every
         for n, s in enumerate(stmts):
